@@ -468,10 +468,11 @@ def run(ctx):
     ctx.rule("R08.7", "delete invalidates the caches; no storage API rewrites study name/directions")
     f = cached.methods.get("delete_study")
     ctx.require(f is not None, "R08.7: _CachedStorage.delete_study vanished")
-    dels = [norm(t) for n in own_nodes(f.node) if isinstance(n, ast.Delete) for t in n.targets]
+    from sa.util import field_accesses as _fa
+    removed = {a.field for a in _fa(f.node) if a.kind == "mutate"}
     for fld in ("_studies", "_trial_id_to_study_id_and_number", "_study_id_and_number_to_trial_id"):
-        ctx.check(any(d.startswith(f"self.{fld}[") for d in dels), "R08.7", f.short, f"invalidate:{fld}",
-                  message=f"_CachedStorage.delete_study does not remove entries of {fld}", how="del statement present")
+        ctx.check(fld in removed, "R08.7", f.short, f"invalidate:{fld}",
+                  message=f"_CachedStorage.delete_study does not remove entries of {fld}", how="del / pop on the map")
     f = p.cls(GPROXY).methods.get("delete_study")
     ctx.require(f is not None, "R08.7: GrpcStorageProxy.delete_study vanished")
     g = CFG(f.node, name=f.qualname)
